@@ -771,19 +771,36 @@ class StreamDispatcher(io.TextIOBase):
         self._simos = simos
         self._which = which
         self._fallback = fallback
+        self._inside: set = set()      # entities currently inside write()/flush() of their own stream
 
     def _target(self):
         so = self._simos
         e = so.sim.me() if so is not None else None
         if e is not None and e.kind == 'worker' and not so.sim.dead:
-            return so.stream_of(e, self._which)
-        return self._fallback
+            return e, so.stream_of(e, self._which)
+        return None, self._fallback
+
+    def _call(self, op, *a):
+        # A logging handler created in the caller holds a reference to *this* object where in reality it
+        # holds the caller's real stream.  If such a handler is (wrongly) still attached inside a worker,
+        # writing through it from inside the worker's own stream must not come back to that stream.
+        e, t = self._target()
+        if e is not None and e in self._inside:
+            t = self._fallback
+            e = None
+        if e is not None:
+            self._inside.add(e)
+        try:
+            return getattr(t, op)(*a)
+        finally:
+            if e is not None:
+                self._inside.discard(e)
 
     def write(self, s):
-        return self._target().write(s)
+        return self._call('write', s)
 
     def flush(self):
-        return self._target().flush()
+        return self._call('flush')
 
     def isatty(self):
         return False
